@@ -10,7 +10,7 @@ namespace tbfsim {
 template <class Cfg> struct AlgoSelect<Cfg, EX_OMP> { using type = TbfOpenmpAlgorithm<typename Cfg::Real, Probe<typename Cfg::Inner>, typename Cfg::Space>; };
 template <class Cfg> struct AlgoSelect<Cfg, EX_OMP_TSM> { using type = TbfOpenmpAlgorithmTsm<typename Cfg::Real, Probe<typename Cfg::Inner>, typename Cfg::Space>; };
 
-struct CfgBaseMorton {
+struct CfgBaseMorton : CfgCommon {
     using Real = double;
     using Space = TbfDefaultSpaceIndexType<double>;
     static constexpr long NbData = 4;
